@@ -5,11 +5,16 @@ import json, os, re, shutil, subprocess, sys
 V = os.path.dirname(os.path.dirname(os.path.abspath(__file__)))
 sys.path.insert(0, V)
 from rules import props
-ids = sys.argv[1:] or sorted(x[:-4] for x in os.listdir("/tmp/seed") if x.endswith(".out"))
+args = sys.argv[1:]
+BASE, SUF = "/tmp/seed", ""
+if args and args[0] == "--base":
+    BASE, SUF = args[1], args[2]
+    args = args[3:]
+ids = args or sorted(x[:-4] for x in os.listdir(BASE) if x.endswith(".out"))
 for sid in ids:
-    src = "/tmp/seed/%s.out" % sid
-    dst = os.path.join(V, "seeded", sid)
-    conf = "/tmp/seed/%s.confirm" % sid
+    src = "%s/%s.out" % (BASE, sid)
+    dst = os.path.join(V, "seeded", sid + SUF)
+    conf = "%s/%s.confirm" % (BASE, sid)
     if os.path.exists(os.path.join(src, "patch.diff")):
         if not os.path.exists(conf) or "== done" not in open(conf).read():
             print(sid, "not confirmed yet, skipping"); continue
